@@ -457,7 +457,9 @@ def oracle_c09(case, tb, rec, out):
     r = res["result"]
     if r.get("exception") == "Deadlock":
         dl = r.get("deadlock") or {}
-        if dl.get("sigchld_taken_by_C_handler_before_the_blocking_read"):
+        if dl.get("sigchld_blocked_by_signal_mask"):
+            key = "C09:SIGCHLD-left-blocked-run-blocks-forever"
+        elif dl.get("sigchld_taken_by_C_handler_before_the_blocking_read"):
             key = "C09:child-exit-just-before-the-blocking-read-is-never-noticed"
         elif dl.get("reaped_by_pid_wait"):
             key = "C09:child-exit-reaped-by-Popen-poll-run-blocks-forever"
@@ -672,8 +674,40 @@ def gen_cases(seed, n, focus, strategies=None, max_tasks=8):
             tasks = gen.rand_dag(rng, nt, p_edge=rng.choice([0.2, 0.4, 0.7]), pkgs=rng.choice([[""], ["", "a"], list(gen.PKGS)]), par_p=rng.choice([0.0, 0.5, 1.0]))
             target = tasks[-1]["id"] if rng.random() < 0.6 else rng.choice(tasks)["id"]
             fam = "random"
+        if fam in ("random", "wide") and rng.random() < 0.3:
+            tasks, target = _share_names(rng, tasks, target)
         cases.append({"family": fam, "tasks": gen.dump(tasks), "history": mk_history(rng, tasks, target, focus, strategies)})
     return cases[:n]
+
+
+def _share_names(rng, tasks, target):
+    """the same task NAME in several packages (identifiers stay unique)"""
+    pk = ["", "a", "a/b", "c"]
+    pool = ["n%d" % j for j in range(max(2, len(tasks) // 2))]
+    ren, used = {}, set()
+    for t in tasks:
+        for _ in range(12):
+            cand = (rng.choice(pk), rng.choice(pool))
+            if cand not in used:
+                break
+        else:
+            cand = (t["pkg"], "u-" + t["name"])
+        used.add(cand)
+        ren[t["id"]] = gen.tid(*cand)
+    out = []
+    for t in tasks:
+        deps = [ren[d] for d in t["deps"]]
+        if t["kind"] == "combine":
+            seen, keep = set(), []
+            for d in deps:
+                n0 = gen.split_tid(d)[1]
+                if n0 not in seen:
+                    seen.add(n0)
+                    keep.append(d)
+            deps = keep
+        p0, n0 = gen.split_tid(ren[t["id"]])
+        out.append(gen.mk_task(p0, n0, t["kind"], deps, par=t["par"], rel_ok=rng.random() < 0.7))
+    return out, ren[target]
 
 
 _SD = {}
